@@ -171,6 +171,60 @@ pub fn corpus_stage(cfg: &Cfg, rep: &mut Report, pfx: &'static str, stage: &'sta
             ctx.sample(|| jobj(&[("enum", jstr(e.name)), ("mnemonics", jstr(&format!("{:?}", e.mnemonics.iter().map(|m| show(m)).collect::<Vec<_>>())))]));
         }
     });
+    // variants with several mnemonics (aliases): every spelling matching any alias selects the variant, nothing else does,
+    // the variant reports one of its aliases and its response text selects it again
+    run_cases(cfg, if pfx == "C20" { "aliases" } else { "derived-enum-aliases" }, if cfg.tiny { 4 } else { reps.min(200) * 20 }, rep, |rng, ctx| {
+        let all = crate::props::enums_fixed::ALIAS_ENUMS;
+        let e = &all[(ctx.index % all.len() as u64) as usize];
+        let nvar = e.aliases.iter().map(|a| a.1).max().unwrap() + 1;
+        for vi in 0..nvar {
+            bump(ctx, 1);
+            let own = (e.mnemonic_of)(vi);
+            if !e.aliases.iter().any(|(m, v)| *v == vi && *m == own) {
+                ctx.violation(&format!("{}:alias:mnemonic()-is-none-of-the-variant's-mnemonics", pfx), jobj(&[("enum", jstr(e.name)), ("variant", vi.to_string()), ("got", jbytes(own))]));
+            }
+            match (e.format)(vi) {
+                Ok(text) if is_chardata(&text) && (e.try_from_token)(Token::CharacterProgramData(&text)).ok() == Some(vi) => ctx.count("alias.response-selects-same-variant"),
+                other => ctx.violation(&format!("{}:alias:response-text-does-not-select-same-variant", pfx), jobj(&[("enum", jstr(e.name)), ("variant", vi.to_string()), ("response", jstr(&format!("{:?}", other.map(|t| show(&t)).map_err(|x| x.get_code()))))])),
+            }
+        }
+        let mut cands = Vec::new();
+        for (m, _) in e.aliases.iter() {
+            candidates(rng, m, &mut cands);
+            cands.push(m.to_vec());
+            cands.push(m.to_ascii_lowercase());
+        }
+        for c in &cands {
+            bump(ctx, 1);
+            if c.is_empty() || c.len() > 12 {
+                continue;
+            }
+            let mut want: Option<usize> = None;
+            let mut verdict = true;
+            for (m, v) in e.aliases.iter() {
+                match ref_match(m, c) {
+                    None => verdict = false,
+                    Some(true) => want = Some(*v),
+                    Some(false) => {}
+                }
+            }
+            if !verdict {
+                continue;
+            }
+            ctx.count(if want.is_some() { "alias.candidates.designating-a-variant" } else { "alias.candidates.designating-none" });
+            ctx.nontrivial(mix(hash_str(e.name), hash_bytes(c)));
+            let got = (e.from_mnemonic)(c);
+            let got_t = (e.try_from_token)(Token::CharacterProgramData(c));
+            let ok_t = match (&got_t, want) {
+                (Ok(i), Some(w)) => *i == w,
+                (Err(x), None) => x.get_code() == -224,
+                _ => false,
+            };
+            if got != want || !ok_t {
+                ctx.violation(&format!("{}:alias:spelling-selects-wrong-variant-or-none", pfx), jobj(&[("enum", jstr(e.name)), ("aliases", jstr(&format!("{:?}", e.aliases.iter().map(|(m, v)| (show(m), *v)).collect::<Vec<_>>()))), ("datum", jbytes(c)), ("from_mnemonic", jstr(&format!("{:?}", got))), ("try_from", jstr(&format!("{:?}", got_t.map_err(|x| x.get_code())))), ("want", jstr(&format!("{:?}", want)))]));
+            }
+        }
+    });
     rep.add("corpus.enums", corpus.len() as u64);
     rep.add("corpus.variants", corpus.iter().map(|e| e.mnemonics.len() as u64).sum());
 }
